@@ -191,14 +191,15 @@ def length_in_var(t, latom):
             return absx.bin_term('Add', LVAR, ('lit', r))
     return tuple(length_in_var(x, latom) for x in t)
 
-def check_encoder(ctx, f, wl_octets, ref_len_octets, pts_wl):
+def check_encoder(ctx, f, ref_len_octets, pts_wl):
     """B4 (encoder): what `encode_inner` leaves in its output buffer, read off the final buffer of every path (rules/rope.py) - not off
     the order of its calls.  On every path that returns Ok the buffer is
         what it held before ++ identifier(tag.class, structure of the payload, tag.id) ++ LENGTH ++ CONTENT
     with CONTENT the payload octets (primitive) resp. for every child in order what the encoder itself appends for it (constructed;
     induction over the tree), and LENGTH a sequence of octets each of which is a constant, the low octet of L, or what
     `write_length(L)` emits, L being *formally* the length of CONTENT - whether LENGTH was written before CONTENT or a placeholder
-    was patched / replaced / inserted afterwards.  Which path is taken may depend on L through threshold comparisons only (checked);
+    was patched / replaced / inserted afterwards (that `write_length(n)` emits the minimal definite form of n is rule B2m's
+    obligation and is assumed here, so a defect of the length writer is reported once, by B2m).  Which path is taken may depend on L through threshold comparisons only (checked);
     so the paths' conditions and LENGTH are evaluated at every change point of the partition induced by those comparisons and by
     write_length's own (0x7F / 0x80 / 0x81, every 2^k +- 1, ...) against the minimal definite length form.  Between two consecutive
     change points the path and the number of reference octets are fixed, the reference is injective in L and an emitted octet is a
@@ -309,8 +310,7 @@ def check_encoder(ctx, f, wl_octets, ref_len_octets, pts_wl):
                 got = []
                 for it in items:
                     if it[0] == 'wl':
-                        w = wl_octets(v)
-                        got = got + w if isinstance(w, list) else [None]
+                        got += ref_len_octets(v)        # what write_length emits for v is B2m's obligation, not decided again here
                     elif it[0] == 'const':
                         got.append(it[1])
                     else:
@@ -682,4 +682,4 @@ def run(ctx):
             ctx.add('B4.header-fields', 'primitive=%s' % prim, loc(B.root), okh, 'class/id of the result are not the parsed header fields')
         ctx.add('B4.both-arms', 'primitive+constructed', loc(B.root), seen >= {True, False}, 'no success path for both structures')
     check_tlv_parser(ctx, f, 'B7')
-    check_encoder(ctx, f, wl_octets, ref_len_octets, pts_wl)
+    check_encoder(ctx, f, ref_len_octets, pts_wl)
